@@ -56,13 +56,95 @@ for sub in ("statement", "predicate"):
                 fname, fty = fm.group(1), fm.group(2).rstrip(",")
                 rn = re.search(r'rename\s*=\s*"([^"]+)"', pending)
                 wire = rn.group(1) if rn else fname
-                fields.append((wire, not fty.startswith("Option<"), "flatten" in pending, fty))
+                fields.append((wire, not fty.startswith("Option<"), "flatten" in pending, fty, 'skip_serializing_if = "Option::is_none"' in pending))
                 pending = ""
             structs.append((name, deny, fields))
 
 if not structs:
     print("schema.py: no structs found")
     sys.exit(1)
+
+# ---------------------------------------------------------------- field types
+struct_names = {n for n, _, _ in structs}
+# newtype wrappers around String that serialise as the string itself
+newtypes = set()
+for sub in ("statement", "predicate"):
+    d = os.path.join(repo, "src", "models", sub)
+    for fn in sorted(os.listdir(d)):
+        if fn.endswith(".rs"):
+            text = strip_tests(open(os.path.join(d, fn)).read())
+            newtypes.update(re.findall(r"pub struct (\w+)\(pub String\);", text))
+# types modelled elsewhere (Model/Wire.lean, Model/Codec.lean, Model/Time.lean, the version tables)
+EXTERNAL = {
+    "BTreeMap<VirtualTargetPath, TargetDescription>": "artifacts",
+    "Command": "command",
+    "ByProducts": "byproducts",
+    "PredicateVer": "predicateVer",
+    "PredicateWrapper": "predicate",
+    "TimeStamp": "time",
+}
+
+
+def fty(t):
+    t = t.strip()
+    if t in ("String",) or t in newtypes:
+        return "FTy.str"
+    if t == "bool":
+        return "FTy.bool"
+    if t == "usize":
+        return "FTy.usize"
+    if t in ("HashMap<String, String>", "BTreeMap<String, String>"):
+        return "FTy.strMap"
+    m = re.match(r"Option<(.*)>$", t)
+    if m:
+        return "(FTy.opt %s)" % fty(m.group(1))
+    m = re.match(r"Vec<(.*)>$", t)
+    if m:
+        return "(FTy.list %s)" % fty(m.group(1))
+    if t in struct_names:
+        return "(FTy.ref %s)" % chars(t)
+    if t in EXTERNAL:
+        return "(FTy.ext %s)" % chars(EXTERNAL[t])
+    print("schema.py: field type %r is not in the type language of the codec model" % t)
+    sys.exit(1)
+
+
+def enum_variants(path, enum):
+    text = strip_tests(open(path).read())
+    m = re.search(r"pub enum %s\s*\{(.*?)\n\}" % enum, text, re.S)
+    if not m:
+        print("schema.py: cannot find enum", enum)
+        sys.exit(1)
+    return m.group(1)
+
+
+def trial_order(path, ver_enum, wrapper_enum):
+    """(version variant, struct type) in the order `<ver_enum>::iter()` tries them"""
+    order = re.findall(r"^\s*(\w+),", enum_variants(path, ver_enum), re.M)
+    payload = dict(re.findall(r"(\w+)\((\w+)\)", enum_variants(path, wrapper_enum)))
+    text = strip_tests(open(path).read())
+    # the judge loop must iterate the version enum and take the first success
+    if not re.search(r"for version in %s::iter\(\)\s*\{[^}]*if wrapper\.is_ok\(\)\s*\{\s*return Ok\(version\)" % ver_enum, text, re.S):
+        print("schema.py: the version detection loop of %s is not 'first success in declaration order'" % wrapper_enum)
+        sys.exit(1)
+    out = []
+    for v in order:
+        if v not in payload or payload[v] not in struct_names:
+            print("schema.py: variant %s of %s has no modelled payload" % (v, wrapper_enum))
+            sys.exit(1)
+        out.append((v, payload[v]))
+    return out
+
+
+# StateV01 is read through its unchecked twin and TryFrom, which must compare the declared predicate
+# type with the version of the contained predicate
+sv01 = strip_tests(open(os.path.join(repo, "src/models/statement/state_v01.rs")).read())
+state_v01_checked = bool(
+    re.search(r'try_from\s*=\s*"StateV01Unchecked"', sv01)
+    and re.search(r"let contained = raw\.predicate\.clone\(\)\.into_trait\(\)\.version\(\);\s*if raw\.predicate_type != contained\s*\{\s*return Err", sv01))
+
+ptrial = trial_order(os.path.join(repo, "src/models/predicate/mod.rs"), "PredicateVer", "PredicateWrapper")
+strial = trial_order(os.path.join(repo, "src/models/statement/mod.rs"), "StatementVer", "StatementWrapper")
 
 
 def table(path, enum):
@@ -84,14 +166,17 @@ os.makedirs(outdir, exist_ok=True)
 with open(os.path.join(outdir, "Schema.lean"), "w") as f:
     f.write("/- GENERATED by translate/schema.py from /repo/src on every run; do not edit. -/\n")
     f.write("namespace InToto.Generated\n\n")
-    f.write("structure FieldSpec where\n  name : List Char\n  required : Bool\n  flatten : Bool\n  deriving DecidableEq, Repr\n\n")
+    f.write("/-- the type language of the attestation structs' fields -/\n")
+    f.write("inductive FTy where\n  | str | bool | usize | strMap\n  | opt (t : FTy)\n  | list (t : FTy)\n  | ref (name : List Char)\n  | ext (name : List Char)\n  deriving DecidableEq, Repr\n\n")
+    f.write("structure FieldSpec where\n  name : List Char\n  required : Bool\n  flatten : Bool\n  ty : FTy\n  skipNone : Bool\n  deriving DecidableEq, Repr\n\n")
     f.write("structure StructSpec where\n  name : List Char\n  denyUnknown : Bool\n  fields : List FieldSpec\n  deriving DecidableEq, Repr\n\n")
     f.write("def schemas : List StructSpec := [\n")
     f.write(",\n".join(
         "  { name := %s, denyUnknown := %s, fields := [\n%s] }" % (
             chars(n), "true" if d else "false",
-            ",\n".join("      { name := %s, required := %s, flatten := %s }" % (chars(w), "true" if r else "false", "true" if fl else "false")
-                       for w, r, fl, _ in fs))
+            ",\n".join("      { name := %s, required := %s, flatten := %s, ty := %s, skipNone := %s }" % (
+                chars(w), "true" if r else "false", "true" if fl else "false", fty(t), "true" if sk else "false")
+                       for w, r, fl, t, sk in fs))
         for n, d, fs in structs))
     f.write("\n]\n\n")
     for nm, (fwd, back) in (("predicateVer", pv), ("statementVer", sv)):
@@ -99,5 +184,10 @@ with open(os.path.join(outdir, "Schema.lean"), "w") as f:
         f.write("def %sOfString : List (List Char × List Char) := [\n%s\n]\n\n" % (nm, ",\n".join("  (%s, %s)" % (chars(s), chars(v)) for s, v in fwd)))
         f.write("/-- `From<..> for String`: variant ↦ string -/\n")
         f.write("def %sToString : List (List Char × List Char) := [\n%s\n]\n\n" % (nm, ",\n".join("  (%s, %s)" % (chars(v), chars(s)) for v, s in back)))
+    for nm, tr in (("predicateTrialOrder", ptrial), ("statementTrialOrder", strial)):
+        f.write("/-- version detection: (version variant, struct) in the order they are tried -/\n")
+        f.write("def %s : List (List Char × List Char) := [\n%s\n]\n\n" % (nm, ",\n".join("  (%s, %s)" % (chars(v), chars(t)) for v, t in tr)))
+    f.write("/-- `StateV01` is decoded through `TryFrom<StateV01Unchecked>`, which rejects a declared predicate type\n    other than the version of the contained predicate -/\n")
+    f.write("def stateV01ChecksPredicateType : Bool := %s\n\n" % ("true" if state_v01_checked else "false"))
     f.write("end InToto.Generated\n")
 print("schema: %d structs" % len(structs))
